@@ -368,6 +368,14 @@ func runCase(rep *core.Report, c tcase, l sim.Layout, seed int64) {
 		if at != bt+1 {
 			rep.Violate("C16.one-new-transaction", "txid-delta/"+shape, detail, map[string]any{"case": c})
 		}
+		// C04 on imports: the checksum of the new position is the from-scratch checksum of the bytes on disk
+		rep.Eval(1)
+		if im, ierr2 := sim.StableDiskImage(n1.DBDir("db"), inL.PageSize); ierr2 == nil {
+			if got := im.Checksum(inL.LockPgno()); got != uint64(db.Pos().PostApplyChecksum) {
+				detail["from_scratch"] = fmt.Sprintf("%016x", got)
+				rep.Violate("C16.position-checksum-is-image", "checksum-after-import/"+shape, detail, map[string]any{"case": c})
+			}
+		}
 		// C09 on imports: the log stays one verified chain ending at the new position (primary and replica)
 		rep.Eval(1)
 		if probs := sim.ChainProblems(n1.DBDir("db"), uint64(db.Pos().TXID), uint64(db.Pos().PostApplyChecksum)); len(probs) > 0 {
